@@ -719,12 +719,12 @@ func RestorePollardFrom(r io.Reader) (int64, *Pollard, error) {
 func (p *Pollard) readOne(n *polNode, r io.Reader) (int64, error) {
 	totalBytes := int64(0)
 
-	// Read from the reader. If we're at EOF, we've finished restoring
-	// the pollard.
+	// Read from the reader. Every node that readOne is called for was
+	// written, so running out of data here means the stream was cut short.
 	readBytes, err := io.ReadFull(r, n.data[:])
 	if err != nil {
 		if err == io.EOF {
-			return int64(readBytes), nil
+			err = io.ErrUnexpectedEOF
 		}
 		return totalBytes, err
 	}
